@@ -203,7 +203,10 @@ def run(tier):
     for k, notes in getattr(rep, "extra_drift", {}).items():
         sc = results[k][0]
         if any("policy field differs" in str(n) for n in notes):
-            key = KF_POLICY if sc["kind"] != "PI" else f"C10 restore: the policy field differs from the one handed to save() :: {sc['name']}"
+            # the listed finding is the DROPPED stale policy of the value-iteration family; a restored solver holding
+            # another policy than the saved one is something else
+            dropped = all("another policy present" not in str(n) for n in notes if "policy field differs" in str(n))
+            key = KF_POLICY if (sc["kind"] != "PI" and dropped) else f"C10 restore: the policy field differs from the one handed to save() :: {sc['name']}"
             rep.violation(key, {"scenario": sc, "clause": "restore: the policy field differs from the one handed to save() at that step"})
     for sc, tr, _ in results[:4]:
         rep.sample({"scenario": sc["name"],
